@@ -2,16 +2,18 @@
 (* (G) URL strings of the C01/C02 grammar, rendered by TLC: focus contexts x token sequences,
    the product of component forms, random longer focus sequences. *)
 EXTENDS C01, Randomization
-CONSTANTS GLen, SN, RLen, RN
+CONSTANTS GLen, SN, RLen, RN, FocusIdx, FLen, FocusCtx
 \* (F is bound through a singleton set so that the data file is read once, not once per use)
 FocusStrings(d) == UNION {UNION {{F[c].pre \o RenderToks(ix) \o F[c].suf : ix \in [1..n -> 1..NTokAll]} : c \in 1..Len(F), n \in 0..GLen} : F \in {Focus}}
 RandomFocus(d) == UNION {UNION {{F[c].pre \o RenderToks(ix) \o F[c].suf : ix \in RandomSubset(RN, [1..n -> 1..NTokAll])} : c \in 1..Len(F), n \in RLen} : F \in {Focus}}
+\* longer exhaustive sequences over the tokens that can glue into escapes, in a few contexts
+GlueFocus(d) == UNION {UNION {{F[c].pre \o RenderToks(ix) \o F[c].suf : ix \in [1..n -> FocusIdx]} : c \in FocusCtx, n \in (GLen + 1)..FLen} : F \in {Focus}}
 Dims == <<Data.scheme, Data.userinfo, Data.host, Data.port, Data.path, Data.query, Data.frag>>
 Pick(f) == FlattenSeq([i \in 1..7 |-> Dims[i][(f[i] % Len(Dims[i])) + 1]])
 \* (TLC evaluates every zero-arity constant definition at start-up: the generators take a dummy
 \*  parameter so that only what GenInit uses is computed)
 Shape(d) == {Pick(f) : f \in RandomSubset(SN, [1..7 -> 0..59])}
 GenInit == /\ url = <<>> /\ opt = <<>> /\ stage = "gen" /\ cur = <<>>
-           /\ JsonSerialize(IOEnv.GEN_OUT, [focus |-> SetToSeq(FocusStrings(0) \cup RandomFocus(0)), shape |-> SetToSeq(Shape(0))])
+           /\ JsonSerialize(IOEnv.GEN_OUT, [focus |-> SetToSeq(FocusStrings(0) \cup RandomFocus(0) \cup GlueFocus(0)), shape |-> SetToSeq(Shape(0))])
 GenNext == FALSE /\ UNCHANGED vars
 =============================================================================
